@@ -238,6 +238,31 @@ def run(ctx):
         return pc, t
     rets = [first_of(pc, t) for pc, t in rets]
     rets = [(tuple(a for a in pc if a[0][0] != 'caught'), t) for pc, t in rets]
+
+    def through_finder(pc):
+        """`e.find(spi) is not None`, where `find` is a first-match search of one of e's lists that answers None when nothing matches
+        (IkeSa.get_child_sa), is the search condition itself, over the elements of that list"""
+        from ..sval import subst_params
+        out = []
+        for t, pol in pc:
+            if t[0] == 'cmp' and t[1] == 'is' and t[3] == NONE and pol is False and t[2][0] == 'call' and isinstance(t[2][1], str):
+                try:
+                    cal = ctx.func(t[2][1])
+                    CS = ctx.sval(cal)
+                except Exception:
+                    cal = None
+                if cal is not None:
+                    cr = [first_of(strip_ids(a), strip_ids(b)) for a, b, _ in CS.returns]
+                    cr = [(tuple(x for x in a if x[0][0] != 'caught'), b) for a, b in cr]
+                    found = [(a, b) for a, b in cr if b != NONE]
+                    if len(found) == 1 and len(cr) == 2 and found[0][1][0] == 'elem' and found[0][0]:
+                        m = {'self': t[2][2]}
+                        m.update({k: v for k, v in t[2][3] if isinstance(k, str) and not k.startswith('#')})
+                        out.extend((strip_ids(subst_params(a, m)), b) for a, b in found[0][0])
+                        continue
+            out.append((t, pol))
+        return tuple(out)
+    rets = [(through_finder(pc), t) for pc, t in rets]
     hit = [(pc, t) for pc, t in rets if t == ('elem', table, 0)]
     okc = len(hit) >= 1 and len(rets) == len(hit) + 1 and any(t == NONE for _, t in rets)
     if okc:
